@@ -4,6 +4,7 @@ C07 — range(a, b) is iter() restricted to a <= v <= b, empty when a > b, in ev
 import EnumToolsModel.Lemmas.Range
 import EnumToolsModel.Thm.C06
 import EnumToolsModel.Lemmas.TemplatesRun
+import EnumToolsModel.Lemmas.ReprTableEq
 namespace ET.Thm
 
 /-- the specification, by positions -/
@@ -148,5 +149,10 @@ theorem C07_source (D : Derive) (tg : Target) (md : Modes) (h : D.WF) (ht : tg.W
     · exact Or.inl h1
     · exact Or.inr (Or.inl h1)
   exact ⟨st, st', by rw [T.range_eq D tg md h ht a b ha hb hm']; exact hi, h1, h2⟩
+
+/-- `range` computes positions and lengths through `#repr_unsigned`: the companion type written in `parser/mod.rs` on this run is the unsigned type of the repr's own width -/
+theorem C07_repr_table_source (t : Target) :
+    (ET.Generated.reprArms.all (armAgrees t)) = true
+    ∧ (∀ r, (reprTable t r).isSome ↔ r ∈ ET.Generated.reprArms.map (·.1)) := repr_table_source t
 
 end ET.Thm
